@@ -5,6 +5,7 @@ import SlotVerif.Proofs.LookupFind
 import SlotVerif.Proofs.Variants
 import SlotVerif.Proofs.MinKey
 import SlotVerif.Proofs.Add
+import SlotVerif.Proofs.AddGroup
 /-!
 # C09 — Insertion is canonical: known terms create nothing, lookup agrees with add
 
@@ -177,6 +178,23 @@ theorem known_terms_stay_known {s s' : Snap} {n m syn : Node} {f2o : SlotMap} {d
     (hok : Snap.AddOK s) (h : Snap.addNew s n f2o syn data = some (s', a)) (hl : Snap.lookup s m = some x) :
     Snap.lookup s' m = some x :=
   Snap.lookup_survives_add hok.1 (Snap.addOK_ids hok) h hl
+
+/-- **the class an insertion creates is a well-formed class**: it is found under the returned id, its slot set is the domain of the
+returned bijection, its stored generators are permutations of its slots (`addAll_generators`: they generate exactly the subgroup
+generated by the node's self-symmetries), and therefore `eq` is an equivalence relation on its invocations -/
+theorem inserted_class_is_well_formed {s s' : Snap} {n syn : Node} {f2o : SlotMap} {data : String} {a : AppId}
+    (hok : Snap.AddOK s) (h : Snap.addNew s n f2o syn data = some (s', a)) :
+    ∃ c, Snap.cls s' a.id = some c ∧ c.id = a.id ∧ c.slots = SlotMap.keys f2o ∧ Grp.Valid c.slots c.gens ∧
+      (∀ x A, Snap.find s' x = some ⟨c.id, A⟩ → Snap.IsEmb c.slots A → Snap.eq s' x x = some true) ∧
+      (∀ x y A B, Snap.find s' x = some ⟨c.id, A⟩ → Snap.find s' y = some ⟨c.id, B⟩ → Snap.IsEmb c.slots A →
+        Snap.IsEmb c.slots B → Snap.eq s' x y = some true → Snap.eq s' y x = some true) ∧
+      (∀ x y z A B D, Snap.find s' x = some ⟨c.id, A⟩ → Snap.find s' y = some ⟨c.id, B⟩ → Snap.find s' z = some ⟨c.id, D⟩ →
+        Snap.IsEmb c.slots A → Snap.IsEmb c.slots B → Snap.IsEmb c.slots D →
+        Snap.eq s' x y = some true → Snap.eq s' y z = some true → Snap.eq s' x z = some true) := by
+  obtain ⟨c, hcls, hid, hslots, hv⟩ := Snap.add_new_class_valid (Snap.addOK_ids hok) h
+  have hcls' : Snap.cls s' c.id = some c := by rw [hid]; exact hcls
+  obtain ⟨h1, h2, h3⟩ := C08.eq_is_equivalence hcls' hv
+  exact ⟨c, hcls, hid, hslots, hv, h1, h2, h3⟩
 
 /-- non-vacuity: on the empty e-graph the node `f2($8, $12)` (variant 7, two slot fields) is a miss; with the fresh slots
 `101, 105` handed in, the model allocates class 0 -/
